@@ -33,9 +33,12 @@ __CPROVER_ensures(IMPLIES(__CPROVER_return_value == KSI_OK,
 		*id >= 1 && *id < ainv_N(c) && c->reqCache[*id] == NULL && *id == c->requestCount &&
 		*offset == c->requestCountOffset))
 __CPROVER_ensures(IMPLIES(ainv_occupied(c) == ainv_N(c) - 1, __CPROVER_return_value == KSI_ASYNC_REQUEST_CACHE_FULL))
-__CPROVER_ensures(IMPLIES(__CPROVER_return_value == KSI_ASYNC_REQUEST_CACHE_FULL, c->pending + c->received + 1 == ainv_N(c) &&
-		c->requestCount == __CPROVER_old(c->requestCount) && c->requestCountOffset == __CPROVER_old(c->requestCountOffset)))
+/* refused <=> the number of outstanding requests has reached the configured cache size; since fix bc7f25b the scan also
+ * ends after one full cycle (all slots taken plus a cached configuration request used to loop forever) */
+__CPROVER_ensures(IFF(__CPROVER_return_value == KSI_ASYNC_REQUEST_CACHE_FULL, c->pending + c->received + 1 >= ainv_N(c)))   /* outstanding requests (incl. a cached configuration request) >= configured cache size */
 __CPROVER_ensures(IMPLIES(c->serverConf == NULL, IFF(__CPROVER_return_value == KSI_ASYNC_REQUEST_CACHE_FULL, ainv_occupied(c) == ainv_N(c) - 1)))
+__CPROVER_ensures(IMPLIES(__CPROVER_return_value == KSI_ASYNC_REQUEST_CACHE_FULL && c->serverConf == NULL,
+		c->requestCount == __CPROVER_old(c->requestCount) && c->requestCountOffset == __CPROVER_old(c->requestCountOffset)))
 __CPROVER_ensures(ainv_inv(c) && c->requestCount >= __CPROVER_old(c->requestCount) - __CPROVER_old(c->requestCount) /* (cursor stays inside the cache: part of Inv) */)
 __CPROVER_assigns(*id, *offset, c->requestCount, c->requestCountOffset);
 
